@@ -742,7 +742,10 @@ impl Scenario for C14 {
         st.observe(&img);
         st.shape_seq(crate::rng::fnv1a(spec.fam.as_bytes()));
         st.shape_seq(img.len().min(4096) as u64 / 64);
-        let fam = spec.fam.as_str();
+        let fam = corpus::reader_family(spec.fam.as_str());
+        if fam != spec.fam.as_str() {
+            st.fault("foreign_writer_image");
+        }
         // the pristine image must be readable (a failure here is reported as such)
         deliver(fam, &img, "none (pristine image)", st)?;
         // every delivery is independent: record a failure (one per class per run) and keep going,
